@@ -351,6 +351,46 @@ def r7_specifier_tables(idx, r):
                       "so the component is placed at none of its lattice positions")
 
 
+def r8_override_and_pitch_order(idx, r):
+    """(a) A modification given for a specific component overrides the block-wide one of the same name: in
+    _filterMaterialInput the block-wide entries are entered first, the component's own afterwards.
+    (b) When the core pitch is inferred from the first assembly of a Cartesian core, the (x, y) pair obtained from
+    getPitch() is handed to changePitch in the same order."""
+    f = idx.method("armi.reactor.blueprints.blockBlueprint.BlockBlueprint", "_filterMaterialInput")
+    if f is None:
+        raise AnchorMissing("BlockBlueprint._filterMaterialInput")
+
+    def kind(st_):
+        conds = [norm(t) for t, pol in path_conditions(f.node, st_) if pol]
+        par_iter = [norm(n.iter) for n in ast.walk(f.node) if isinstance(n, ast.For) and st_ in list(ast.walk(n))]
+        if any("componentDesign.name" in c for c in conds):
+            return "component"
+        if any("byBlock" in it for it in par_iter):
+            return "block"
+        return None
+    stores = [x for x in walk_local(f.node) if isinstance(x, ast.Assign) and isinstance(x.targets[0], ast.Subscript) and "filteredMaterialInput" in norm(x.targets[0].value)]
+    kinds = {id(x): kind(x) for x in stores}
+    if sorted(k for k in kinds.values() if k) != ["block", "component"]:
+        raise AnalysisError(f"_filterMaterialInput: block-wide and by-component stores not identified: {list(kinds.values())}")
+    fl = Flow(f.node, lambda n: ["component-entered"] if id(n) in kinds and kinds[id(n)] == "component" else []).run()
+    blk = next(x for x in stores if kinds[id(x)] == "block")
+    sb = fl.state_before(blk) or {}
+    r.require(sb.get("component-entered", (0, 0))[1] == 0, "material-input:component-overrides-block", f, node=blk,
+              msg="the block-wide modifications are entered AFTER the component's own: where both name the same modification the block-wide value overwrites the one requested for this component")
+    g = idx.method("armi.reactor.blueprints.reactorBlueprint.SystemBlueprint", "_modifyGeometry")
+    if g is None:
+        raise AnchorMissing("SystemBlueprint._modifyGeometry")
+    unp = [x for x in walk_local(g.node) if isinstance(x, ast.Assign) and isinstance(x.targets[0], ast.Tuple) and isinstance(x.value, ast.Call) and call_attr(x.value) == "getPitch"]
+    if not unp:
+        raise AnchorMissing("_modifyGeometry: unpacking of the Cartesian pitch")
+    for u in unp:
+        names = [norm(e) for e in u.targets[0].elts]
+        calls = [c for c in iter_calls(g.node) if call_attr(c) == "changePitch" and len(c.args) == len(names) and {norm(a) for a in c.args} == set(names)]
+        r.require(bool(calls) and all([norm(a) for a in c.args] == names for c in calls), "cartesian-pitch:same-order", g, node=u,
+                  msg=f"getPitch() is unpacked as ({', '.join(names)}) but changePitch receives ({', '.join(norm(a) for a in calls[0].args) if calls else '?'}): x and y pitch are exchanged, "
+                      "assemblies of a core with rectangular cells are not where the map puts them")
+
+
 def run(idx, chk):
     chk.explanation = (
         "C18 is a relation between an input document and an object graph; static analysis claims only: (1) each lattice-map class reads and "
@@ -373,3 +413,5 @@ def run(idx, chk):
                  necessary="'composition after the requested material modifications and isotopic overrides'")
     chk.run_rule("R18.7", "specifier tables: a duplicate assembly specifier is refused; pin-lattice specifiers and lattice IDs are compared as the same type", lambda r: r7_specifier_tables(idx, r), floor=2,
                  necessary="'places, at every location named in the core and pin lattice maps (text maps and explicit lists alike), an assembly of the specified design'")
+    chk.run_rule("R18.8", "component-specific material modifications override block-wide ones; an inferred Cartesian pitch keeps its (x, y) order", lambda r: r8_override_and_pitch_order(idx, r), floor=2,
+                 necessary="composition 'after the requested material modifications'; assemblies 'at every location named in the core map'")
